@@ -250,6 +250,8 @@ func entriesFor(start string) (entryFn, *entryFn) {
 		return epDML, &epStmt
 	case start == "DDL":
 		return epDDL, &epStmt
+	case start == "Statement":
+		return epStmt, nil
 	default:
 		return epStmt, nil
 	}
